@@ -15,7 +15,10 @@ import (
 	"verif/harness/sim"
 )
 
-const aliasMain = `sub vcl_recv {
+const aliasMain = `backend be_one { .host = "127.0.0.1"; .port = "1"; }
+backend be_two { .host = "127.0.0.1"; .port = "2"; }
+backend be_three { .host = "127.0.0.1"; .port = "3"; }
+sub vcl_recv {
 #FASTLY RECV
 return(lookup);
 }
@@ -33,6 +36,27 @@ sub f_b(BOOL var.p) BOOL { if (req.method ~ "^(G)(ET)$") { set var.p = true; } r
 sub f_r(RTIME var.p) RTIME { set var.p += 1s; return var.p; }
 sub f_t(TIME var.p) TIME { if (req.url ~ "(x)=(1)") { set var.p += 1s; } return var.p; }
 sub h_x(REGEX var.p) { set var.p = "^never"; }
+sub h_k(BACKEND var.p) { set var.p = be_three; }
+sub h_nest(INTEGER var.p) {
+  declare local var.i_a INTEGER;
+  declare local var.s_a STRING;
+  declare local var.own INTEGER;
+  set var.i_a = 99;
+  set var.s_a = "nest";
+  set var.own = var.p;
+  call h_i(var.i_a);
+  set var.s_a = f_s(var.s_a);
+  call h_s(var.s_a);
+  set var.own = f_i(var.own);
+}
+sub f_nest(STRING var.p) STRING {
+  declare local var.s_b STRING;
+  declare local var.i_b INTEGER;
+  set var.s_b = "fnest";
+  set var.i_b = 7;
+  call h_nest(var.i_b);
+  return f_s(var.s_b);
+}
 `
 
 type atype struct {
@@ -44,16 +68,18 @@ type atype struct {
 }
 
 var atypes = []atype{
-	{"i", "INTEGER", [3]string{"5", "70", "-3"}, []string{"1", "2", "7", "9"}, []string{"+=", "-=", "|=", "&=", "^=", "*="}, true},
+	{"i", "INTEGER", [3]string{"5", "70", "-3"}, []string{"1", "2", "7", "9", "65", "130"}, []string{"+=", "-=", "|=", "&=", "^=", "*=", "rol=", "ror=", "<<=", ">>="}, true},
 	{"f", "FLOAT", [3]string{"1.5", "-2.25", "10.0"}, []string{"0.5", "2.0", "1.25"}, []string{"+=", "-=", "*="}, true},
 	{"s", "STRING", [3]string{"\"abc\"", "\"\"", "\"x y\""}, []string{"\"z\"", "\"ab\"", "\"\""}, []string{"+="}, false},
 	{"b", "BOOL", [3]string{"true", "false", "true"}, []string{"true", "false"}, []string{"&&=", "||="}, false},
 	{"r", "RTIME", [3]string{"90s", "5m", "1500ms"}, []string{"1s", "10s", "250ms"}, []string{"+=", "-="}, true},
 	{"t", "TIME", [3]string{"std.integer2time(1000000000)", "std.integer2time(1500000000)", "std.integer2time(86400)"}, []string{"1s", "10s", "5m"}, []string{"+=", "-="}, false},
 	{"ip", "IP", [3]string{"\"192.0.2.1\"", "\"10.1.2.3\"", "\"2001:db8::1\""}, []string{"\"198.51.100.7\"", "\"::1\""}, nil, false},
+	{"k", "BACKEND", [3]string{"be_one", "be_two", "be_one"}, []string{"be_one", "be_two"}, nil, false},
 }
 
-var aliasHeaders = []string{"X-Foo", "X-Foo-Bar", "X-Fo", "X-Other"}
+// the last name contains the text of a capture variable: it is a header like the others
+var aliasHeaders = []string{"X-Foo", "X-Foo-Bar", "X-Fo", "X-Other", "X-re.group.1"}
 
 type astmt struct {
 	text    string
@@ -102,6 +128,8 @@ func aliasProgram(r *rand.Rand, n int) (string, []astmt, []string) {
 		pool = append(pool, "req.http."+h)
 	}
 	pool = append(pool, "req.http.X-Foo:k", "req.http.X-Foo:k2", "re.group.0", "re.group.1", "re.group.2", "req.url", "req.method", "req.http.Canary")
+	// the declared backends themselves (an identifier is evaluated again at every read) and the request's backend
+	pool = append(pool, "be_one", "be_two", "be_three", "req.backend")
 	var stmts []astmt
 	add := func(kind, text string, allowed map[string]bool, groups bool) {
 		stmts = append(stmts, astmt{text: text, allowed: allowed, groups: groups, kind: kind})
@@ -124,11 +152,33 @@ func aliasProgram(r *rand.Rand, n int) (string, []astmt, []string) {
 	add("init/header", `set req.http.X-Foo = "k=1, k2=2";`, hdrAllowed("X-Foo"), false)
 	add("init/header", `set req.http.X-Foo-Bar = "bar";`, hdrAllowed("X-Foo-Bar"), false)
 	add("init/header", `set req.http.X-Other = "other";`, hdrAllowed("X-Other"), false)
+	add("init/header", `set req.http.X-re.group.1 = "a header";`, hdrAllowed("X-re.group.1"), false)
 	v := func(t atype) string { return fmt.Sprintf("var.%s_%c", t.tag, "abcd"[r.Intn(4)]) }
 	for len(stmts) < n+24 {
 		t := atypes[r.Intn(len(atypes))]
 		x, y := v(t), v(t)
-		switch k := r.Intn(18); {
+		switch k := r.Intn(22); {
+		case k == 18:
+			// a TIME shifted by an RTIME literal inside a string concatenation (a fresh value, the local stays)
+			sx, ty := fmt.Sprintf("var.s_%c", "abcd"[r.Intn(4)]), fmt.Sprintf("var.t_%c", "abcd"[r.Intn(4)])
+			if r.Intn(2) == 0 {
+				add("time-in-concat", fmt.Sprintf("set %s = \"at \" + %s + %s + \" end\";", sx, ty, []string{"5m", "10s", "1h"}[r.Intn(3)]), one(sx), false)
+			} else {
+				add("time-in-concat/log", fmt.Sprintf("log \"expires \" + %s + %s + \".\";", ty, []string{"5m", "10s", "1h"}[r.Intn(3)]), map[string]bool{}, false)
+			}
+		case k == 19:
+			// calls nested two deep whose callees declare locals of the caller's names
+			if r.Intn(2) == 0 {
+				add("call/nested", fmt.Sprintf("call h_nest(var.i_%c);", "abcd"[r.Intn(4)]), map[string]bool{}, false)
+			} else {
+				sx := fmt.Sprintf("var.s_%c", "abcd"[r.Intn(4)])
+				add("functional/nested", fmt.Sprintf("set %s = f_nest(var.s_%c);", sx, "abcd"[r.Intn(4)]), one(sx), false)
+			}
+		case k == 20:
+			add("backend-set", fmt.Sprintf("set req.backend = %s;", []string{"be_one", "be_two", "be_three", "var.k_a", "var.k_b"}[r.Intn(5)]), one("req.backend"), false)
+		case k == 21:
+			kx := fmt.Sprintf("var.k_%c", "abcd"[r.Intn(4)])
+			add("backend-to-local", fmt.Sprintf("set %s = %s;", kx, []string{"req.backend", "be_one", "be_two"}[r.Intn(3)]), one(kx), false)
 		case k == 16:
 			xr := fmt.Sprintf("var.x_%c", "abc"[r.Intn(3)])
 			if r.Intn(3) == 0 {
@@ -154,7 +204,7 @@ func aliasProgram(r *rand.Rand, n int) (string, []astmt, []string) {
 			add("neg/"+t.vcl, fmt.Sprintf("set %s = -%s;", x, y), one(x), false)
 		case k == 5:
 			add("call/"+t.vcl, fmt.Sprintf("call h_%s(%s);", t.tag, x), map[string]bool{}, false)
-		case k == 6 && t.vcl != "IP":
+		case k == 6 && t.vcl != "IP" && t.vcl != "BACKEND":
 			add("functional/"+t.vcl, fmt.Sprintf("set %s = f_%s(%s);", x, t.tag, y), one(x), false)
 		case k == 7:
 			sx := fmt.Sprintf("var.s_%c", "abc"[r.Intn(3)])
